@@ -26,6 +26,8 @@ def extra_templates(b):
     return ["arr[idx[1]] = %s" % ph, "a[b[c]]] %s" % ph, "[x]]%s" % ph, "m[1][2] = %s AND n[k[%s]] = 1" % (ph, ph),
             "[]] %s []" % ph, "']]' = %s" % ph, "a]] %s" % ph, "[%s]]%s" % (ph, ph),
             # line ends and other blanks are characters of the fragment like any other (inside and outside quotes)
+            # numeric characters that are neither alphabetic nor ASCII digits are punctuation for the crate tokenizer
+            "m\u00b2 * %s + %s" % (ph, ph.replace("1", "2")), "\u00bd%s" % ph, "x\uff11 = %s" % ph, "\u0663 %s \u2460" % ph,
             "a\r\nb = %s" % ph, "'x\r\ny' = %s\r\n" % ph, "a\tb\n= %s" % ph, "\r%s\r" % ph, "'\n' || %s || '\r'" % ph]
 
 
@@ -58,9 +60,9 @@ def spec_render(b, tmpl, lits, params_mode):
             continue
         # a word starts with a letter or digit and may continue with letters, digits, `_` and `$`:
         # a `$` inside a word is part of the word (a$1 is one identifier), never a mark
-        if c.isalnum():
+        if c.isalpha() or c in "0123456789":
             j = i + 1
-            while j < n and (tmpl[j].isalnum() or tmpl[j] in "_$"):
+            while j < n and (tmpl[j].isalpha() or tmpl[j] in "0123456789_$"):
                 j += 1
             out.append(tmpl[i:j])
             i = j
@@ -76,7 +78,7 @@ def spec_render(b, tmpl, lits, params_mode):
                     return None   # outside the template language (bare $)
                 k = int(m.group(0))
                 nxt = tmpl[i + 1 + len(m.group(0)):][:1]
-                if nxt and (nxt.isalnum() or nxt in "_$"):
+                if nxt and (nxt.isalpha() or nxt in "0123456789_$"):
                     return None   # $1a / $1$2: not a well-formed numbered placeholder
                 if k < 1 or k > len(lits):
                     return None
